@@ -1107,6 +1107,7 @@ def run(ctx):
     r01_15(ctx, p)
     r01_16(ctx, p)
     r01_17(ctx, p)
+    r01_20(ctx, p)
     ctx.rule("R01.19", "get_all_trials hands the trials back in trial-number order on every backend: the two dict-backed caches sort by number, the RDB query orders by trial id")
     from rules.c08 import sorted_by_number
     for q in ("optuna.storages._cached_storage._CachedStorage", "optuna.storages._grpc.client.GrpcClientCache"):
@@ -1121,3 +1122,44 @@ def run(ctx):
     ctx.rule("R01.18", "an id names exactly one object: JournalStorage.create_new_study returns the id of the study found by the name its own record carried")
     from rules.c03 import create_study_returns_named
     create_study_returns_named(ctx, "R01.18")
+
+
+def r01_20(ctx, p):
+    """Journal replay of SET_TRIAL_STATE_VALUES stores what was written for every accepted request.
+
+    The public method answers True for every request on an unfinished trial except a RUNNING request that
+    finds the trial RUNNING (the failed claim).  For each other (requested, stored) pair the handler must
+    reach the store into the trial table: a widened "state unchanged - nothing to do" early return drops
+    the values of set_trial_state_values(t, WAITING, values) on a WAITING trial, which the in-memory and
+    RDB backends store."""
+    ctx.rule("R01.20", "journal replay stores every accepted state/values write: for each (requested, stored) pair other than the failed claim "
+             "(RUNNING on RUNNING) and a finished stored state, every path of _apply_set_trial_state_values to the exit passes the store into the "
+             "trial table (finite-domain exploration)")
+    rcls = p.cls(REPLAY)
+    f = rcls.methods.get("_apply_set_trial_state_values")
+    ctx.require(f is not None, "R01.20: JournalStorageReplayResult._apply_set_trial_state_values vanished")
+    g = CFG(f.node, name=f.qualname)
+    stores = [n for n in g.stmt_nodes() if n.kind == "stmt" and isinstance(n.ast, ast.Assign)
+              and any(isinstance(t, ast.Subscript) and self_attr(t.value) == "_trials" for t in n.ast.targets)]
+    ctx.floor("R01.20", "trial_table_stores", len(stores), 1)
+    cur_texts = {norm(x) for x in own_nodes(f.node) if isinstance(x, ast.Attribute) and x.attr == "state"
+                 and norm(x.value) not in ("self",) and not norm(x.value).endswith("TrialState")}
+    n_pairs = 0
+    for cur in TRIAL_STATES:
+        if cur in FINISHED:
+            continue
+        for req in TRIAL_STATES:
+            if req == "RUNNING" and cur == "RUNNING":
+                continue
+            n_pairs += 1
+            env = {"state": req, "__cur__": cur}
+            for ct in cur_texts:
+                env[ct] = cur
+            nodes, edges = explore(g, env, [_cas.model_updatable], return_edges=True)
+            ok_edge = lambda a, k, b: (a, k, b) in edges and k not in ("e", "reraise")  # noqa: E731
+            r = g.reachable([g.entry], avoid_nodes=stores, edge_ok=ok_edge)
+            ctx.check(g.exit not in r, "R01.20", f.short, f"accepted-write-is-stored:{req}-on-{cur}",
+                      message=f"replaying set_trial_state_values(state={req}) on a trial that is {cur} can return without storing the trial: the public method "
+                              f"answered True, the in-memory and RDB backends store the state and the values, every journal reader sees the old trial",
+                      how="explored with the requested and the stored state fixed: the exit is reachable only through `self._trials[trial_id] = trial`")
+    ctx.count("R01.20", "state_pairs", n_pairs)
